@@ -48,6 +48,13 @@ impl Ctx {
     }
     pub fn write_stats(&self, stats: &util::Stats) {
         if let Some(p) = &self.stats_path {
+            let mut stats = stats.clone();
+            let pairs = front::SHARED_STREAM_PAIRS.load(std::sync::atomic::Ordering::Relaxed);
+            let reps = front::REPEATED_FRAMES.load(std::sync::atomic::Ordering::Relaxed);
+            if pairs + reps > 0 {
+                stats.counters.insert("apng_frame_pairs_of_different_size_sharing_a_stream".into(), pairs as u64);
+                stats.counters.insert("apng_repeated_frames".into(), reps as u64);
+            }
             std::fs::write(p, stats.to_json()).unwrap();
         }
     }
